@@ -47,6 +47,9 @@ def sh(*a, **k): return subprocess.run(a, capture_output=True, text=True, **k)
 wt='/tmp/mkvariants_wt'
 sh('git','-C','/repo','worktree','remove','--force',wt)
 assert sh('git','-C','/repo','worktree','add','--detach',wt,'HEAD').returncode==0
+# reverts that no longer compile as plain `git revert` (a later fix builds on the repaired code): D15 and D28 are kept as hand-made
+# patches of the same names, D1 and D12 have no variant; none is regenerated
+HAND={'D1','D12','D15','D28'}
 try:
     log=sh('git','-C',wt,'log','--format=%h %s').stdout.strip().split('\n')
     n=0
@@ -54,6 +57,7 @@ try:
         h,subj=line.split(' ',1)
         for pre,(d,targets) in REV.items():
             if subj.startswith(pre):
+                if d in HAND: continue
                 r=sh('git','-C',wt,'revert','--no-commit',h)
                 if r.returncode!=0:
                     print('revert conflicts, skipped:',d,h); sh('git','-C',wt,'revert','--abort'); sh('git','-C',wt,'reset','--hard','-q'); continue
